@@ -240,7 +240,7 @@ func apiLoc(l gts.Location) gts.Location {
 func edgeRecord(o *Out, gb *seqio.GenBank, i int) string {
 	r := o.Rng
 	f := &gb.Fields
-	switch i % 20 {
+	switch i % 21 {
 	case 0:
 		f.Source.Species = "S" + rstr(r, alWord, 20, 30) + " " + rstr(r, alWord, 20, 30) + " " + rstr(r, alWord, 20, 40)
 		return "long-species"
@@ -322,6 +322,15 @@ func edgeRecord(o *Out, gb *seqio.GenBank, i int) string {
 		f.Keywords = []string{"RefSeq", "lacZ;lacY", "a;b;c"}
 		f.Source.Taxon = []string{"other sequences", "artificial sequences;vectors", "x"}
 		return "semicolon-inside-entry"
+	case 19:
+		// a feature key as wide as, or wider than, the key column (INSDC keys have at
+		// most 15 characters; known finding K14)
+		for len(gb.Table) < 2 {
+			gb.Table = append(gb.Table, rfeature(o, gb.Len()))
+		}
+		wide := []string{"regulatory_regio", "regulatory_region", "a_very_long_feature_key_indeed"}[(i/21)%3]
+		gb.Table[len(gb.Table)-1].Key = wide
+		return "feature-key-16-or-more"
 	default:
 		f.DBLink.Set("Empty"+itoa(i), "")
 		return "dblink-empty-value"
@@ -487,6 +496,30 @@ func c01Known(o *Out, kind string, gb seqio.GenBank, field string) bool {
 			return true
 		}
 	}
+	// K14: a feature key of 16 or more characters leaves no blank before the
+	// location (16) or makes the writer panic (17 and more).  Attributed only when
+	// the record passes with those keys cut to 15 characters.
+	wideKey := false
+	for _, f := range gb.Table {
+		if len(f.Key) >= 16 {
+			wideKey = true
+		}
+	}
+	if wideKey {
+		cp := gb
+		cp.Table = nil
+		for _, f := range gb.Table {
+			g := f
+			if len(g.Key) > 15 {
+				g.Key = g.Key[:15]
+			}
+			cp.Table = append(cp.Table, g)
+		}
+		if roundTripOK(cp) {
+			o.KnownFinding("K14")
+			return true
+		}
+	}
 	for _, e := range gb.Fields.Extra {
 		if len(e.Name) >= 12 && (kind == "closure" || kind == "fixed-point" || (kind == "fidelity" && field == "extra")) {
 			cp := gb
@@ -579,6 +612,9 @@ func checkRoundTrip(o *Out, class string, gb seqio.GenBank) {
 	res := o.Run(class+":write", true, "gb_write", line)
 	caseLine := join("gb_write", line)
 	if !strings.HasPrefix(res, "ok ") {
+		if c01Known(o, "closure", gb, "") {
+			return
+		}
 		o.Violate("write-fails", caseLine, res)
 		return
 	}
